@@ -24,6 +24,9 @@ SHORT = {
  "C16": "level check behind the cache answer of `read -h`", "C01e": "SYN branch guarded by `!sending` instead of the state", "C02e": "SYN with buffered data passes although a request is current", "C03e": "adapter ERROR frame no longer withdraws the START", "C04d": "retry counter reset after the request was handed to the queue", "C15e": "MM-vs-MS decision by own address instead of isMaster", "C07d": "24:00:ss accepted on write (time types)", "C08d": "unavailable conditional alternative ends the bucket scan", "C09d": "field index translation drops the name filter", "C12d": "stream flags no longer reset before a number", "C16d": "ACL lines append instead of replace", "C05c": "backslash not escaped in JSON strings", "C06c": "symmetric range check rejects the most negative raw value", "C10c": "single field claims its length in both parts", "C11c": "doubled ESC accepted by parseHexEscaped", "C13c": "prepared request counts as seen", "C14c": "RESETTED leaves m_arbitrationCheck set", "C17c": "front insertion resets m_pollOrder", "C18c": "topic match uses rfind", "C19c": "quote after separator inside quoted text reopens", "C16b": "HTTP user without secret keeps the user's levels", "C16c": None,
  "C17": "`setPollPriority` pushes back instead of pulling forward", "C17b": "`clear()` of any map resets the shared `g_lastPollOrder`",
  "C18": "blank runs inside quotes collapsed", "C18b": "leading-slash requirement of the HTTP target dropped",
+ "C01f": "`m_repeat` not reset at the first byte of a passively received telegram", "C09f": "single master-part field by index also decodes the slave part",
+ "C13f": "quote stripping of string value lists decided once for the whole list", "C14f": "second-byte test uses the marker as mask (first byte accepted as second byte)",
+ "C17f": "newly set priority no longer joins the cycle at the current poll order", "C19f": "poll priority digit 9 not recognised in the type column (r9 loads and dumps as r)",
  "C02f": "response buffer not cleared before the repetition of a NAKed response", "C03f": "lock counter reloaded after a lost arbitration only if the request has retries left",
  "C05e": "BCD high-nibble check off by one (0xA accepted in lower-order bytes)", "C06e": "reciprocal divisor formatted in single precision (4-byte types)",
  "C07e": "24:00:ss accepted on write (3-byte time types, minutes-only check)", "C08e": "source-bit stripping only for lookups that include passive definitions",
